@@ -191,6 +191,13 @@ Definition builtin_apply (local_off : Z) (name : list Z) (args : list value) : o
     else if name_is name "toFloat" then Ok (VNum d)
     else if name_is name "max" || name_is name "min" then Ok (VNum d)
     else Unk                                             (* exp ln log sqrt: not modelled *)
+  | [VNum v; VNum _] =>
+    (* roundCash(v, places) as the code has it: places is ignored; the remainder of v by 1 decides between
+       ceil (remainder <= 0.05, or not comparable) and floor *)
+    if name_is name "roundCash" then
+      if dec_cmp (dec_rem v dec_one) (Fin false 5 (-2)) <=? 0 then Ok (VNum (dec_ceil v))
+      else Ok (VNum (match v with NaN => NaN | _ => dec_floor v end))
+    else Err
   | [VStr s; VStr t] =>
     if name_is name "startWith" then Ok (VBool (str_index s t =? 0))
     else if name_is name "endWith" then Ok (VBool (is_suffix t s))
@@ -234,6 +241,7 @@ Definition builtin_apply (local_off : Z) (name : list Z) (args : list value) : o
     | Some ss =>
       if name_is name "includes" then Ok (VBool (existsb (fun y => bytes_eqb y x) ss))
       else if name_is name "join" then Ok (VStr (join_strs ss x))
+      else if name_is name "mapToArr" then (match l with [] => Ok (VArr []) | _ => Err end)   (* no rows: no values *)
       else Err
     | None =>
       if name_is name "mapToArr" then
